@@ -346,32 +346,42 @@ def r5(R5, cfg, F):
     R5.check(callers == ['cache::AssetCache::<S>::enhance_hot_reloading'], cfg, 'hot_reloading::HotReloader::send_static', 'callers={enhance_hot_reloading}', 'callers: %s' % callers)
     ei = sig_inputs(F, 'cache::AssetCache::<S>::enhance_hot_reloading') or []
     R5.check(len(ei) == 1 and ei[0].startswith("&'static "), cfg, 'cache::AssetCache::<S>::enhance_hot_reloading', "takes-&'static-self", 'signature inputs %s' % ei)
-    # update_if_static runs only in Static mode; handle_events does not update directly
-    for fn, variant in (('update_if_static', 'Static'), ('update_if_local', 'Local'), ('use_static_ref', 'Local')):
-        b = F.body(P + 'HotReloadingData::' + fn)
+    # who runs an update pass, and in which mode: update_if_static only when the cache kind is Static, update_if_local and
+    # use_static_ref only when it is Local; nothing else reloads (the pass itself may be a free function, a method, or
+    # written in each of them: common.update_passes)
+    ups = common.update_passes(F)
+    want = {P + 'HotReloadingData::update_if_static': 'Static', P + 'HotReloadingData::update_if_local': 'Local', P + 'HotReloadingData::use_static_ref': 'Local'}
+    R5.check(sorted(ups) == sorted(want), cfg, P + 'run_update', 'callers={update_if_local,update_if_static,use_static_ref}',
+             'an update pass (DepsGraph::reload of the sorted change set) may be run only by update_if_local, update_if_static and use_static_ref; it is run by %s' % sorted(ups))
+    for fn, variant in sorted(want.items()):
+        b = ups.get(fn)
         if not b:
             R5.missing(cfg, fn)
             continue
-        ru = [c for c in b.calls() if c.callee and c.callee.best == P + 'run_update']
-        sw = [bb for bb, t in b.terms() if t['k'] == 'switch' and (b.access_path(t['discr']) or [])[-2:] == ['cache', 'discr']]
-        ok = len(ru) == 1 and len(sw) == 1
-        if ok:
-            idx = {'Local': '0', 'Static': '1'}[variant]
-            edges = b.edges(sw[0])
-            keep = [d for d, lab in edges if lab == 'sw:' + idx] or ([d for d, lab in edges if lab == 'otherwise'] if all(lab != 'sw:' + idx for _, lab in edges) and
-                                                                      {lab for _, lab in edges if lab.startswith('sw:')} == {'sw:' + ('1' if idx == '0' else '0')} else [])
-            ok = len(keep) == 1 and ru[0].bb not in b.reachable([0], removed_edges=[(sw[0], keep[0])])
-        R5.check(ok, cfg, b.path, 'run_update-only-in-%s-mode' % variant, '%s must run the update only when the cache kind is %s' % (fn, variant), b.loc())
+        sites = [c for c in b.calls() if c.callee and c.callee.best in (common.RELOAD, common.TOPO)]
+        idx = {'Local': 0, 'Static': 1}[variant]
+        ok = bool(sites)
+        # every test of `self.cache` in the function (the paths that name it), then: the site is guarded by the wanted
+        # kind -- directly, or through `matches!(self.cache, ..)` bound to a flag
+        cpaths = []
+        for bb, t in b.terms():
+            if t['k'] == 'switch' and not b.blocks[bb]['cleanup']:
+                tst = common.switch_test(b, bb)
+                if tst and tst[0] == 'discr':
+                    dp = common.deep_path(b, tst[1])
+                    if common.strip_refs(dp)[-1:] == ['cache'] and dp not in cpaths:
+                        cpaths.append(dp)
+        for c in sites:
+            ok = ok and bool(cpaths) and common.guarded_by_variant(b, c.bb, cpaths, idx) and not common.guarded_by_variant(b, c.bb, cpaths, 1 - idx)
+        R5.check(ok, cfg, fn, 'run_update-only-in-%s-mode' % variant, '%s must run the update only when the cache kind is %s' % (fn.split('::')[-1], variant), b.loc())
     he = F.body(P + 'HotReloadingData::handle_events')
     if not he:
         R5.missing(cfg, 'handle_events')
     else:
         reach = F.reach([he.path])
-        direct = [c.callee.best for u in F.unit(he) for c in u.calls() if c.callee and c.callee.best in (P + 'run_update', P + 'HotReloadingData::update_if_local')]
+        direct = [c.callee.best for u in F.unit(he) for c in u.calls() if c.callee and c.callee.best in (common.RUN_UPDATE, common.RELOAD, common.TOPO, P + 'HotReloadingData::update_if_local')]
         R5.check(not direct and (P + 'HotReloadingData::update_if_local') not in reach, cfg, he.path, 'events-update-only-via-update_if_static',
                  'handle_events must update only through update_if_static (no reload in Local mode outside hot_reload); calls %s' % direct, he.loc())
-    cru = F.callers_of(r'^hot_reloading::paths::run_update$')
-    R5.check(cru == sorted(P + 'HotReloadingData::' + x for x in ('update_if_local', 'update_if_static', 'use_static_ref')), cfg, P + 'run_update', 'callers={update_if_local,update_if_static,use_static_ref}', 'callers: %s' % cru)
     cul = F.callers_of(r'HotReloadingData::update_if_local$')
     R5.check(cul == ['hot_reloading::hot_reloading_thread'], cfg, P + 'HotReloadingData::update_if_local', 'callers={hot_reloading_thread}', 'callers: %s' % cul)
     # hot_reload waits: reload() sends Ptr(.., token) and on Ok waits for that token
